@@ -228,6 +228,7 @@ E4Labels == {"E4/rule-off-raises"}
 \* was any admissible explanation one that needed an `unspecified` option?
 Unspecified(V, B, before, x) ==
   /\ x.raised = ""
+  /\ Cardinality(Opts(V, B, x.q)) > 1
   /\ Cardinality({Chain(V, B, before, x.q, o) : o \in Opts(V, B, x.q)}) > 1
 
 \* C14.  A1: no raise, connection loop still serving; a missing answer must be
